@@ -176,7 +176,37 @@ def detect_flags(repo) -> dict:
         copy_text = False
     else:
         raise RuntimeError("Data.copy: unrecognised construction of the blank array")
-    return {"guard_cells": guard, "skip_valueless": skip, "read_empty": read_empty, "copy_text": copy_text}
+    # (5) Entity.__init__: does map_attributes run inside the try block whose handler detaches the child again
+    # (a refused attribute leaves nothing behind), or before it (a refused add_data leaves a value-less child)?
+    tree = ast.parse((repo / "geoh5py/shared/entity.py").read_text())
+    fn = None
+    for node in ast.walk(tree):
+        if isinstance(node, ast.ClassDef) and node.name == "Entity":
+            for sub in node.body:
+                if isinstance(sub, ast.FunctionDef) and sub.name == "__init__":
+                    fn = sub
+    if fn is None:
+        raise RuntimeError("Entity.__init__ not found")
+
+    def calls_map(n):
+        return any(isinstance(x, ast.Call) and isinstance(x.func, ast.Name) and x.func.id == "map_attributes" for x in ast.walk(n))
+
+    holders = [st for st in fn.body if calls_map(st)]
+    if len(holders) != 1:
+        raise RuntimeError("Entity.__init__: expected exactly one statement calling map_attributes")
+    st = holders[0]
+    if isinstance(st, ast.Expr):
+        rollback = False
+    elif isinstance(st, ast.Try) and any(calls_map(b) for b in st.body) and len(st.handlers) == 1:
+        h = st.handlers[0]
+        broad = h.type is None or (isinstance(h.type, ast.Name) and h.type.id in ("Exception", "BaseException"))
+        detaches = any(isinstance(x, ast.Attribute) and x.attr == "_children" for x in ast.walk(h)) and any(isinstance(x, ast.Raise) for x in ast.walk(h))
+        if not (broad and detaches):
+            raise RuntimeError("Entity.__init__: map_attributes is inside a try whose handler is not the detach-and-re-raise one")
+        rollback = True
+    else:
+        raise RuntimeError("Entity.__init__: unrecognised shape around map_attributes")
+    return {"guard_cells": guard, "skip_valueless": skip, "read_empty": read_empty, "copy_text": copy_text, "add_rollback": rollback}
 
 
 def regenerate(repo):
@@ -189,8 +219,9 @@ def _flags_term():
     global _FLAGS
     if _FLAGS is None:
         _FLAGS = detect_flags(C.REPO)
-    return "{| f_guard_cells := %s; f_skip_valueless := %s; f_read_empty := %s; f_copy_text := %s |}" % (
-        cbool(_FLAGS["guard_cells"]), cbool(_FLAGS["skip_valueless"]), cbool(_FLAGS["read_empty"]), cbool(_FLAGS["copy_text"]))
+    return "{| f_guard_cells := %s; f_skip_valueless := %s; f_read_empty := %s; f_copy_text := %s; f_add_rollback := %s |}" % (
+        cbool(_FLAGS["guard_cells"]), cbool(_FLAGS["skip_valueless"]), cbool(_FLAGS["read_empty"]), cbool(_FLAGS["copy_text"]),
+        cbool(_FLAGS["add_rollback"]))
 
 
 # ----------------------------------------------------------------------------- specification ledger (oracle + generator)
@@ -305,7 +336,7 @@ def _gen_vals(rng, kind, n):
     return [None if rng.chance(12) else rng.range(-40, 40) for _ in range(n)]
 
 
-def _gen_add(rng, E, kid_id, allow_bad=False):
+def _gen_add(rng, E, kid_id, allow_bad=True):
     # too-long arrays are offered through the values setter only: a refused add_data leaves an unregistered child whose
     # fate at re-open depends on workspace-level state (C06 territory); one such history is kept in corpus/C07
     cls = E["cls"]
@@ -488,10 +519,19 @@ def _gen_dcopy(rng):
     return {"kind": "dcopy", "assoc": assoc, "n": n, "dkind": kind, "vals": vals, "mask": mask, "target": target}
 
 
+def _gen_grow(rng):
+    """numeric data stored for n elements, then the geometry grows by k elements through the vertices / cells setter; after a
+    re-open the (cold) read must have one entry per element: the stored values followed by the no-data value"""
+    n, k = rng.range(1, 8), rng.range(1, 4)
+    kind = rng.weighted([("float", 50), ("int", 20), ("bool", 15), ("ref", 15)])
+    return {"kind": "grow", "assoc": "VERTEX" if rng.chance(60) else "CELL", "n": n, "k": k, "dkind": kind, "vals": _gen_vals(rng, kind, n)}
+
+
 def generate(rng, tier):
     n = 220 if tier == "quick" else 5000
     nd = 80 if tier == "quick" else 1500
-    return [_gen_case(rng) for _ in range(n)] + [_gen_dcopy(rng) for _ in range(nd)]
+    ng = 30 if tier == "quick" else 500
+    return [_gen_case(rng) for _ in range(n)] + [_gen_dcopy(rng) for _ in range(nd)] + [_gen_grow(rng) for _ in range(ng)]
 
 
 # ----------------------------------------------------------------------------- implementation driver
@@ -598,9 +638,9 @@ def drive_one(case, work):
         return uuid.UUID(bytes=hashlib.sha256(seed + counter[0].to_bytes(8, "big")).digest()[:16], version=4)
 
     uuid.uuid4 = fake_uuid4
-    if case.get("kind") == "dcopy":
+    if case.get("kind") in ("dcopy", "grow"):
         try:
-            return _drive_dcopy(case, path)
+            return _drive_dcopy(case, path) if case["kind"] == "dcopy" else _drive_grow(case, path)
         finally:
             uuid.uuid4 = real_uuid4
             if os.path.exists(path):
@@ -740,6 +780,53 @@ def _drive_dcopy(case, path):
             pass
 
 
+def _drive_grow(case, path):
+    import numpy as np
+    from geoh5py import Workspace
+    from geoh5py.objects import Curve, Points
+
+    n, k = case["n"], case["k"]
+    ws = Workspace.create(path)
+    out = {}
+    try:
+        if case["assoc"] == "VERTEX":
+            ob = Points.create(ws, name="src", vertices=np.c_[np.arange(float(n)), np.zeros(n), np.zeros(n)])
+        else:
+            ob = Curve.create(ws, name="src", vertices=np.c_[np.arange(float(n + 1)), np.zeros(n + 1), np.zeros(n + 1)],
+                              cells=np.c_[np.arange(n), np.arange(1, n + 1)].astype("int32"))
+        spec = {"association": case["assoc"], "values": _arr(case["vals"], case["dkind"])}
+        if case["dkind"] == "ref":
+            spec["type"] = "referenced"
+            spec["value_map"] = {i: f"unit{i}" for i in range(1, 6)}
+        ob.add_data({"d1": spec})
+        try:
+            if case["assoc"] == "VERTEX":
+                ob.vertices = np.c_[np.arange(float(n + k)), np.zeros(n + k), np.zeros(n + k)]
+            else:
+                ob.cells = np.vstack([np.asarray(ob.cells), np.zeros((k, 2), dtype="int32")]).astype("int32")
+            out["grow_err"] = None
+        except Exception as e:  # noqa: BLE001
+            out["grow_err"] = type(e).__name__
+        out["count"] = int(ob.n_vertices if case["assoc"] == "VERTEX" else ob.n_cells)
+        uid = ob.uid
+        ws.close()
+        ws = Workspace(path)
+        ob = ws.get_entity(uid)[0]
+        out["count_reopen"] = int(ob.n_vertices if case["assoc"] == "VERTEX" else ob.n_cells)
+        ch = [c for c in ob.children if getattr(c, "name", None) == "d1"][0]
+        try:
+            v = ch.values
+            out["cold"] = None if v is None else _canon_vals(v)
+        except Exception as e:  # noqa: BLE001
+            out["cold"] = {"error": type(e).__name__}
+        return out
+    finally:
+        try:
+            ws.close()
+        except Exception:  # noqa: BLE001
+            pass
+
+
 # ----------------------------------------------------------------------------- Coq case terms
 def _pt(p):
     return "(" + ", ".join(cz(int(x)) for x in p) + ")"
@@ -848,9 +935,33 @@ def _dcopy_term(case, obs):
     return "dcopy_agrees %s %s %s %s (%s)" % (_flags_term(), cnat(obs["n_target"]), clist(cbool(bool(b)) for b in case["mask"]), kid, o)
 
 
+def _grow_term(case, obs):
+    if obs.get("grow_err") is not None or obs.get("count") != case["n"] + case["k"] or obs.get("count_reopen") != obs["count"]:
+        return "false"
+    cold = obs["cold"]
+    if isinstance(cold, dict):
+        if cold["error"] not in ERRS:
+            return "false"
+        o = "RE %s" % cold["error"]
+    elif cold is None:
+        o = "RV None"
+    else:
+        if any(isinstance(x, dict) for x in cold):
+            return "false"
+        o = "RV (Some %s)" % _vals_term(cold)
+    m = obs["count"]
+    kid = "{| kid_id := 1; kassoc := %s; kkind := %s; kvals := Some %s |}" % (ASSOC[case["assoc"]], KIND[case["dkind"]], _vals_term(case["vals"]))
+    pts = clist("(0, 0, 0)%Z" for _ in range(m if case["assoc"] == "VERTEX" else 2))
+    cells = "[]" if case["assoc"] == "VERTEX" else clist("[0%nat; 1%nat]" for _ in range(m))
+    obj = "{| ok := %s; verts := %s; cells := %s; kids := [%s] |}" % ("OPoints" if case["assoc"] == "VERTEX" else "OCurve", pts, cells, kid)
+    return "rval_eqb (read_file %s %s %s) (%s)" % (_flags_term(), obj, kid, o)
+
+
 def _case_term(case, obs):
     if case.get("kind") == "dcopy":
         return _dcopy_term(case, obs)
+    if case.get("kind") == "grow":
+        return _grow_term(case, obs)
     if "steps" not in obs:
         return "false"
     # the object as created must be the object asked for
@@ -868,6 +979,8 @@ def _case_term(case, obs):
 
 
 def model_term(case):
+    if case.get("kind") == "grow":
+        return None
     if case.get("kind") == "dcopy":
         n = case["n"] if case["target"] == "self" else case["target"]["n"]
         kid = "{| kid_id := 1; kassoc := %s; kkind := %s; kvals := Some %s |}" % (ASSOC[case["assoc"]], KIND[case["dkind"]], _vals_term(case["vals"]))
@@ -979,6 +1092,15 @@ def oracle(case, obs):
         return [{"key": "driver-crash", "what": obs["crash"][:300]}]
     if case.get("kind") == "dcopy":
         return _oracle_dcopy(case, obs)
+    if case.get("kind") == "grow":
+        m = case["n"] + case["k"]
+        if obs.get("grow_err") is not None or obs.get("count") != m:
+            return []  # growing through the setter refused: nothing to read
+        want = list(case["vals"]) + [_nd(case["dkind"])] * case["k"]
+        if obs["cold"] != want:
+            return [{"key": "grown-geometry-data-not-one-entry-per-element",
+                     "what": f"{case['assoc']} data stored for {case['n']} elements, geometry grown to {m}: after re-open the read gives {obs['cold']}, expected {want}"}]
+        return []
     fails = []
     E = spec_new(case)
     if obs["init"]["verts"] != [list(p) for p in case["verts"]] or obs["init"]["cells"] != [list(c) for c in case["cells"]]:
@@ -1107,6 +1229,8 @@ def _interesting(case, obs):
 
 
 def nontrivial(case, obs):
+    if case.get("kind") == "grow":
+        return obs.get("grow_err") is None
     if case.get("kind") == "dcopy":
         return obs.get("err") is None and 0 < sum(case["mask"]) < len(case["mask"])
     return _interesting(case, obs)
@@ -1116,6 +1240,9 @@ def histogram(cases, obs):
     h = {"cls": {}, "n_vertices": {}, "ops": {}, "errors": {}, "stopped": {}, "unreferenced_vertices": 0, "unordered_cells": 0,
          "rv_touching_no_cell": 0, "valueless_children": 0, "executed_steps": 0, "shaped_assignments": 0, "data_copy": {}}
     for c, o in zip(cases, obs):
+        if c.get("kind") == "grow":
+            h["grown_geometry_reads"] = h.get("grown_geometry_reads", 0) + 1
+            continue
         if c.get("kind") == "dcopy":
             t = "self" if c["target"] == "self" else ("equal" if c["target"]["n"] == c["n"] else "smaller" if c["target"]["n"] < c["n"] else "larger")
             r = t + ":" + ("ok" if o.get("err") is None else str(o.get("err")))
